@@ -186,6 +186,21 @@ fn whole(rep: &Reporter, local: &mut Local, text: Option<&str>, elems: &Option<V
 			rep.violation("absent:sequence", "absent params: sequence is not empty", json!({"part":"whole","params": null}));
 		}
 	}
+	// an owned copy (what async methods and subscriptions receive) behaves like the borrowed original
+	{
+		let owned = Params::new(text).into_owned();
+		let a = params.parse::<Value>().map_err(|e| e.code());
+		let b = owned.parse::<Value>().map_err(|e| e.code());
+		let seq_a = norm_opt(params.sequence().optional_next::<Value>());
+		let seq_b = norm_opt(owned.sequence().optional_next::<Value>());
+		if a != b || params.is_object() != owned.is_object() || seq_a != seq_b || params.len_bytes() != owned.len_bytes() {
+			rep.violation(
+				"into_owned:differs",
+				&format!("params {text:?}: borrowed parse = {a:?}, is_object = {}, first optional read = {seq_a:?}; after into_owned(): parse = {b:?}, is_object = {}, first optional read = {seq_b:?}", params.is_object(), owned.is_object()),
+				json!({"engine":"ENUM","part":"whole","params": text}),
+			);
+		}
+	}
 	let _ = elems;
 	local.case(hash_of(&("whole", text)), true, "whole");
 }
@@ -222,7 +237,7 @@ pub fn check(rep: &Reporter) {
 	let max_len = 3;
 	let max_script = if thorough { 4 } else { 3 };
 	rep.set_rule(&format!(
-		"params texts = arrays of 0..{max_len} elements out of {} element texts (numbers incl. out-of-range, strings containing brackets/commas/escapes, nested and blank containers) with whitespace from {{none, space, tab-newline, CR-LF}} at every token gap (all combinations for ≤1 element; for 2 elements at most 2 (thorough 4) non-empty gaps; for 3 elements at most {} non-empty gaps), plus objects/scalars/absent, plus strings of 20..70 (thorough 1..140) two-, three- and four-byte characters behind 0..3 ASCII characters as only element / second element / non-array params / object member; read scripts = all sequences of length 1..{max_script} over {{next<Value>, next<u64>, next<String>, optional_next<Value>, optional_next<u64>}}; every (text, script) pair is judged against serde_json's parse of the element texts; distinct = (text, script), all non-trivial.",
+		"params texts = arrays of 0..{max_len} elements out of {} element texts (numbers incl. out-of-range, strings containing brackets/commas/escapes, nested and blank containers) with whitespace from {{none, space, tab-newline, CR-LF}} at every token gap (all combinations for ≤1 element; for 2 elements at most 2 (thorough 4) non-empty gaps; for 3 elements at most {} non-empty gaps), plus objects/scalars/absent (each also as an owned copy, which must behave like the borrowed original), plus strings of 20..70 (thorough 1..140) two-, three- and four-byte characters behind 0..3 ASCII characters as only element / second element / non-array params / object member; read scripts = all sequences of length 1..{max_script} over {{next<Value>, next<u64>, next<String>, optional_next<Value>, optional_next<u64>}}; every (text, script) pair is judged against serde_json's parse of the element texts; distinct = (text, script), all non-trivial.",
 		ELEMS.len(),
 		if thorough { 3 } else { 1 }
 	));
